@@ -138,6 +138,19 @@ CHECKS["C17"] = (
     LEVEL_NOTE_COMMON + "HMAC, AES-GCM and Fernet idealised (symbolic); byte-level mutations are exercised, not proved.",
     "DESIGN.md §6 C17")
 
+CHECKS["C04"] = (
+    "Rocq proof (round trip, class and key separation, session binding, Dolev-Yao unforgeability over symbolic Fernet/JWS) + vm_compute correspondence on real handler plaintexts + every-token-in-every-slot and byte-mutant oracle on real endpoints",
+    "Theorems (Props/C04.v, 12, closed): a minted opaque token resolves with its own handler to exactly its session id; a handler refuses "
+    "a token minted for another class even when all handlers share one key (the class field inside the authenticated plaintext decides); "
+    "foreign-key tokens do not decrypt; equal token values imply equal class and session; with the handler key unpublished every derivable "
+    "term the handler accepts is something the provider published, of an accepted class, resolving to a session that class was minted for "
+    "(C04_unforgeable); the same for JWT tokens (class separation, ID Token is no access token, expired signature refused, foreign key, "
+    "unforgeability); lv codec for all lists of all strings. Correspondence: real tokens decrypted with the handler's key vs. the model's "
+    "lv_pack(rnd,class,sid,exp); info() matrix handler x class x shared/distinct keys. Oracle: genuine tokens of all classes in all slots "
+    "of userinfo/introspection/token endpoint on 3 provider variants, another instance's tokens, ~15-80 byte-level mutants per token.",
+    LEVEL_NOTE_COMMON + "Partial: byte-level integrity (bit flips, truncation, re-encoding) rests on the AE/JWS idealisation and is exercised on the real libraries, not proved.",
+    "DESIGN.md §6 C04")
+
 NOT_YET = "not claimed in this snapshot: its model/theorems/driver are not built yet (DESIGN.md §9 build order); no check is registered rather than a weaker technique"
 
 
